@@ -394,7 +394,11 @@ def poison_yaml(cl: Dict[str, Any]) -> str:
     st, ms, _al = _names_of(cl)
     used = {i for _n, i in ms}
     dup = next(i for i in range(4000, 9000) if i not in used)
-    fs = {"structs": [[n, [["zz0", "int8", None, None]]] for n in dict.fromkeys(st)],
+    # plus one definition of its own in every section (whatever the failed parse leaves behind in any table — or in the
+    # dictionary the combined YAML is written from — shows up in the next compile)
+    fs = {"constants": [["ZZ_POISON_K", "7", 7]], "strings": [["ZZ_POISON_STR", "left over"]],
+          "aliases": [["ZZ_POISON_AL", "int16"]], "hosts": [["ZZ_POISON_H", 31999]], "mods": [["ZZ_POISON_M", 31999]],
+          "structs": [[n, [["zz0", "int8", None, None]]] for n in dict.fromkeys(st)] + [["ZZ_POISON_S", [["zz0", "int8", None, None]]]],
           "messages": [[n, i, [["zz0", "int8", None, None]]] for n, i in dict(ms).items()] +
                       [["ZZ_DUP_A", dup, None], ["ZZ_DUP_B", dup, None]]}
     return file_yaml(fs)
@@ -478,6 +482,18 @@ def real_compile(cl: Dict[str, Any], src: Path, out: Path, cwd: Optional[Path] =
     finally:
         os.chdir(old)
     return ["ok"], ""
+
+
+_COMPILE_CHILD = r"""
+import sys, io, contextlib
+sys.path.insert(0, sys.argv[1])
+import pyrtma.compile as pc
+buf = io.StringIO()
+with contextlib.redirect_stdout(buf):
+    pc.compile([sys.argv[2]], out_dir=sys.argv[3], out_name="defs", debug=False, validate_alignment=True,
+               auto_pad=sys.argv[4] == "1", import_coredefs=sys.argv[5] == "1", python=sys.argv[6] == "1",
+               javascript=True, matlab=True, c_lang=True, combined=True)
+"""
 
 
 def env_toks(cwd, root_spelled, I: Interner) -> List[str]:
@@ -1265,6 +1281,22 @@ def run_closure(cid: str, cl: Dict[str, Any], tmp_root: Path, want: Dict[str, bo
                         blk.append(f"MEAS {I(n)} {','.join(map(str, goffs)) or '-'} {gsize} "
                                    f"{','.join(str(f[1]) for f in pc['fields']) or '-'} {pc['sizeof']} {pc['type_size']}")
                     obs["measured"] = len(g["layout"])
+            pre_diffs: List[str] = []
+            if want.get("roundtrip") and poison is not None and p is not None:
+                # the combined YAML written from the Parser object that had failed on another file before must be the one
+                # compile() wrote from a fresh Parser (same closure, same text)
+                try:
+                    from pyrtma.compilers.yaml import YAMLCompiler
+                    y2 = work / "combined_from_reused_parser.yaml"
+                    a_, b_ = _quiet()
+                    with a_, b_:
+                        YAMLCompiler(p, filename="defs").generate(y2)
+                    if y2.read_bytes() != (out / "defs_combined.yaml").read_bytes():
+                        pre_diffs.append("defs_combined.yaml@parser_reused_after_failed_parse")
+                except Exception as e:  # noqa: BLE001
+                    pre_diffs.append(f"defs_combined.yaml@parser_reused_after_failed_parse: {type(e).__name__}: {e}"[:200])
+                if pre_diffs:
+                    obs["nondeterministic"] = list(pre_diffs)
             if want.get("roundtrip"):
                 try:
                     ylines, ynotes = combined_lines((out / "defs_combined.yaml").read_text(), I)
@@ -1289,7 +1321,7 @@ def run_closure(cid: str, cl: Dict[str, Any], tmp_root: Path, want: Dict[str, bo
                 blk.append(" ".join(["ENV"] + env_toks(work / "elsewhere", rel, I)))
                 oc4, err4 = real_compile(cl, Path(rel), out2, cwd=work / "elsewhere", python=True, javascript=True,
                                          matlab=True, c_lang=True, combined=True)
-                diffs = []
+                diffs = list(pre_diffs)
                 if oc4 != ["ok"]:
                     diffs.append("second compile: " + " ".join(oc4) + " " + err4)
                 else:
@@ -1308,6 +1340,42 @@ def run_closure(cid: str, cl: Dict[str, Any], tmp_root: Path, want: Dict[str, bo
                     for f in ("defs.py", "defs.h", "defs.js", "defs.m", "defs_combined.yaml"):
                         if (out / f).read_bytes() != (out3 / f).read_bytes():
                             diffs.append(f + "@parent")
+                # a copy of the source tree somewhere else (only where a location could show: the core definitions are
+                # read from the package directory, or files sit in sub-directories): `type_source` is relative to the root
+                # file's directory, so every output is the same text
+                if cl.get("coredefs") or any("/" in fn for fn in cl["files"]):
+                    src2 = work / "relocated" / "two" / "levels" / "src_copy"
+                    shutil.copytree(src, src2)
+                    out5 = work / "out5"
+                    oc6, err6 = real_compile(cl, src2 / cl["root"], out5, python=True, javascript=True, matlab=True,
+                                             c_lang=True, combined=True)
+                    if oc6 != ["ok"]:
+                        diffs.append("compile of a copy of the source tree: " + " ".join(oc6) + " " + err6)
+                    else:
+                        for f in ("defs.py", "defs.h", "defs.js", "defs.m", "defs_combined.yaml"):
+                            if (out / f).read_bytes() != (out5 / f).read_bytes():
+                                diffs.append(f + "@copy_of_the_source_tree_elsewhere")
+                # fourth compile: another interpreter process with a fixed string-hash seed (the first three share the
+                # harness's own): anything that follows set / hash order differs between processes only
+                # (a replay runs all four seeds: the failing pair of processes must not depend on the harness's own seed)
+                with_py = sum(map(ord, cid)) % 5 == 0
+                for hs in (range(4) if want.get("all_hash_seeds") else [sum(map(ord, cid)) % 4]):
+                    out4 = work / f"out4_{hs}"
+                    out4.mkdir()
+                    env = dict(os.environ, PYTHONHASHSEED=str(hs))
+                    try:
+                        r4 = subprocess.run([PY, "-c", _COMPILE_CHILD, str(C.REPO / "src"), str(root), str(out4),
+                                             "1" if cl.get("auto_pad", True) else "0", "1" if cl.get("coredefs", False) else "0",
+                                             "1" if with_py else "0"], env=env, cwd=str(work), capture_output=True, text=True, timeout=300)
+                        if r4.returncode != 0:
+                            diffs.append(f"compile in another process (PYTHONHASHSEED={hs}): " + r4.stderr.strip().splitlines()[-1][:200]
+                                         if r4.stderr.strip() else f"compile in another process: exit {r4.returncode}")
+                        else:
+                            for f in (["defs.py"] if with_py else []) + ["defs.h", "defs.js", "defs.m", "defs_combined.yaml"]:
+                                if not (out4 / f).exists() or (out / f).read_bytes() != (out4 / f).read_bytes():
+                                    diffs.append(f + f"@process(PYTHONHASHSEED={hs})")
+                    except subprocess.TimeoutExpired:
+                        diffs.append("compile in another process: no result within 300 s")
                 obs["nondeterministic"] = diffs
         blk.append("END")
         return {"block": tbl + blk, "names": I.names, "obs": obs}
